@@ -86,7 +86,7 @@ theorem ascii_append {a b : Str} : Ascii (a ++ b) ↔ Ascii a ∧ Ascii b := by
 theorem loop_three (m : List (Str × Str)) (out : Str) (a b c : Char) (rest : Str)
     (ha : a.val ≤ 127) (hb : b.val ≤ 127) (hc : c.val ≤ 127) :
     translateLoop m ([], out) (a :: b :: c :: rest) =
-      translateLoop m ([], out ++ mapGetStr m (upper [a, b, c])) rest := by
+      translateLoop m ([], (mapGetStr m (upper [a, b, c])).reverse ++ out) rest := by
   have h1 : a.utf8Size = 1 := Char.utf8Size_eq_one_iff.2 ha
   have h2 : b.utf8Size = 1 := Char.utf8Size_eq_one_iff.2 hb
   have h3 : c.utf8Size = 1 := Char.utf8Size_eq_one_iff.2 hc
@@ -106,7 +106,7 @@ theorem loop_short (m : List (Str × Str)) (out : Str) (s : Str) (hs : Ascii s) 
   | _ :: _ :: _ :: _, h => simp at h; omega
 
 theorem loop_chunks (m : List (Str × Str)) : ∀ (s : Str) (out : Str), Ascii s →
-    (translateLoop m ([], out) s).2 = out ++ (chunks3 s).flatMap fun c => mapGetStr m (upper c)
+    (translateLoop m ([], out) s).2 = ((chunks3 s).flatMap fun c => mapGetStr m (upper c)).reverse ++ out
   | a :: b :: c :: rest, out, hs => by
     have ha := hs a (by simp)
     have hb := hs b (by simp)
@@ -117,6 +117,13 @@ theorem loop_chunks (m : List (Str × Str)) : ∀ (s : Str) (out : Str), Ascii s
   | [], out, _ => by simp [translateLoop, chunks3]
   | [a], out, hs => by rw [loop_short m out [a] hs (by simp)]; simp [chunks3]
   | [a, b], out, hs => by rw [loop_short m out [a, b] hs (by simp)]; simp [chunks3]
+
+/-- the translation is the concatenation, in order, of the residues of the complete in-frame codons -/
+theorem translateCore_eq_chunks (t : Table) (s : Str) (hs : Ascii s) :
+    translateCore t s = (chunks3 s).flatMap (aaOf t) := by
+  simp only [translateCore]
+  rw [loop_chunks _ _ _ hs, List.append_nil, List.reverse_reverse]
+  rfl
 
 /-! ### chunks -/
 
